@@ -18,21 +18,43 @@ Editing == {"INSERT", "DELETE", "PAGE_UP", "PAGE_DOWN"}
 FKeys == {"F1", "F2", "F3", "F4", "F5", "F6", "F7", "F8", "F9", "F10", "F11", "F12"}
 Controls == {"ENTER", "TAB", "BACKSPACE", "ESCAPE"}
 Keypad == {"KP_0", "KP_1", "KP_2", "KP_3", "KP_4", "KP_5", "KP_6", "KP_7", "KP_8", "KP_9"}
+(* xterm ctlseqs, "PC-Style Function Keys", the keypad table: operators (with Num Lock on they send  *)
+(* their character, in application mode SS3 j-o and SS3 X), Enter (CR / SS3 M), and the keys the      *)
+(* keypad has with Num Lock off, which xterm sends as the cursor / editing key of the same name       *)
+(* (Begin: CSI E).                                                                                    *)
+KeypadOps == {"KP_DECIMAL", "KP_DIVIDE", "KP_MULTIPLY", "KP_SUBTRACT", "KP_ADD", "KP_EQUAL", "KP_SEPARATOR"}
+KeypadNav == {"KP_LEFT", "KP_RIGHT", "KP_UP", "KP_DOWN", "KP_HOME", "KP_END", "KP_PAGE_UP", "KP_PAGE_DOWN", "KP_INSERT", "KP_DELETE"}
+Twin(n) == CASE n = "KP_LEFT" -> "LEFT" [] n = "KP_RIGHT" -> "RIGHT" [] n = "KP_UP" -> "UP" [] n = "KP_DOWN" -> "DOWN"
+             [] n = "KP_HOME" -> "HOME" [] n = "KP_END" -> "END" [] n = "KP_PAGE_UP" -> "PAGE_UP" [] n = "KP_PAGE_DOWN" -> "PAGE_DOWN"
+             [] n = "KP_INSERT" -> "INSERT" [] n = "KP_DELETE" -> "DELETE"
+
+(* UTF-8 of a code point (RFC 3629). *)
+Utf8(c) == IF c < 128 THEN <<c>>
+           ELSE IF c < 2048 THEN <<192 + c \div 64, 128 + c % 64>>
+           ELSE IF c < 65536 THEN <<224 + c \div 4096, 128 + (c \div 64) % 64, 128 + c % 64>>
+           ELSE <<240 + c \div 262144, 128 + (c \div 4096) % 64, 128 + (c \div 64) % 64, 128 + c % 64>>
+
+(* A printable key that carries the text it produced (no Ctrl, no Alt): the legacy encoding of such *)
+(* a key IS that text (xterm sends what the key press produced), whatever the code of the key: a    *)
+(* grapheme cluster, the third-level character of a layout (AltGr), the capital under Caps Lock,     *)
+(* composed text that belongs to no key.  e.text: its code points.                                   *)
+TextKey(e) == e.name = "" /\ e.text # <<>> /\ e.mods \in {0, Shift}
 
 (* e: [name, code, mods, lower (has an upper-case image), ascii] *)
 Expressible(e) ==
-  IF e.name \in Cursor \cup Editing \cup FKeys THEN TRUE            \* CSI 1;m X / CSI n;m ~ carry every modifier set
+  IF e.name \in Cursor \cup Editing \cup FKeys \cup {"KP_BEGIN"} THEN TRUE   \* CSI 1;m X / CSI n;m ~ carry every modifier set (keypad Begin: CSI 1;m E)
   ELSE IF e.name \in Controls THEN
        \/ e.mods = 0
        \/ (e.mods = Alt /\ e.name # "ESCAPE")
        \/ (e.mods = Shift /\ e.name = "TAB")                          \* CSI Z
-  ELSE IF e.name \in Keypad THEN FALSE   \* the legacy encoding cannot tell a keypad digit from the digit key (and Vaxis decodes no SS3 p-y)
+  ELSE IF e.name \in Keypad \cup KeypadOps \cup {"KP_ENTER"} THEN FALSE   \* the legacy encoding cannot tell a keypad digit from the digit key (and Vaxis decodes no SS3 j-y, M, X): the mode rule below is all that is demanded
   ELSE IF e.name = "" THEN                                            \* a key with a code point
        \/ e.mods = 0
        \/ (e.mods = Shift /\ e.lower)                                 \* the upper-case letter
-       \* ESC + byte, unless ESC + that byte opens an escape sequence (intermediates 2/0-2/15) or is a 7-bit C1 introducer
-       \/ (e.mods = Alt /\ e.ascii /\ e.code > 47 /\ e.code \notin {79, 80, 88, 91, 93, 94, 95})
-       \/ (e.mods = Alt + Shift /\ e.ascii /\ e.lower /\ e.code - 32 \notin {79, 80, 88})
+       \* xterm (metaSendsEscape): "the character itself preceded by ESC" - every character, unless ESC + that byte
+       \* is a 7-bit C1 introducer (SS3, DCS, SOS, CSI, OSC, PM, APC), which only a timer could tell from the key
+       \/ (e.mods = Alt /\ e.code >= 32 /\ e.code \notin {79, 80, 88, 91, 93, 94, 95})
+       \/ (e.mods = Alt + Shift /\ e.lower /\ e.shifted \notin {79, 80, 88})
        \/ (e.mods = Ctrl /\ e.code \in (97..122) \ {104, 105, 109})   \* C0 byte (not BS/HT/CR, which are other keys)
        \/ (e.mods = Ctrl + Alt /\ e.code \in (97..122) \ {104, 105, 109})
   ELSE FALSE
@@ -48,21 +70,39 @@ SharedCtrl(e) == e.name = "" /\ e.mods = Ctrl /\ CtrlClassOf(e.code) # {}
 CursorFinal(n) == CASE n = "UP" -> 65 [] n = "DOWN" -> 66 [] n = "RIGHT" -> 67 [] n = "LEFT" -> 68 [] n = "HOME" -> 72 [] n = "END" -> 70
 KeypadFinal(n) == CASE n = "KP_0" -> 112 [] n = "KP_1" -> 113 [] n = "KP_2" -> 114 [] n = "KP_3" -> 115 [] n = "KP_4" -> 116
                     [] n = "KP_5" -> 117 [] n = "KP_6" -> 118 [] n = "KP_7" -> 119 [] n = "KP_8" -> 120 [] n = "KP_9" -> 121
-KeypadDigit(n) == KeypadFinal(n) - 112 + 48
+                    [] n = "KP_MULTIPLY" -> 106 [] n = "KP_ADD" -> 107 [] n = "KP_SEPARATOR" -> 108 [] n = "KP_SUBTRACT" -> 109
+                    [] n = "KP_DECIMAL" -> 110 [] n = "KP_DIVIDE" -> 111 [] n = "KP_EQUAL" -> 88 [] n = "KP_ENTER" -> 77
+KeypadChar(n) == CASE n \in Keypad -> KeypadFinal(n) - 112 + 48
+                   [] n = "KP_MULTIPLY" -> 42 [] n = "KP_ADD" -> 43 [] n = "KP_SEPARATOR" -> 44 [] n = "KP_SUBTRACT" -> 45
+                   [] n = "KP_DECIMAL" -> 46 [] n = "KP_DIVIDE" -> 47 [] n = "KP_EQUAL" -> 61 [] n = "KP_ENTER" -> 13
 
 (* Byte strings the child's cursor-key / keypad modes allow (unmodified keys); {} = no constraint. *)
-(* A keypad digit that carries text was typed with Num Lock on: xterm then sends the digit even   *)
-(* in application keypad mode ("num_lock, force keypad_mode off"), a VT100 sends SS3 p-y: both    *)
-(* are accepted under DECKPAM, only the digit under DECKPNM.                                      *)
+(* A keypad digit or operator that carries text was typed with Num Lock on: xterm then sends the   *)
+(* character even in application keypad mode ("num_lock, force keypad_mode off"), a VT100 sends    *)
+(* SS3 j-y: both are accepted under DECKPAM, only the character under DECKPNM.  Keypad Enter is CR  *)
+(* in numeric mode and SS3 M (or, under xterm's Num Lock rule, CR) in application mode.             *)
 ModeBytes(e) ==
   IF e.name \in Cursor /\ e.mods = 0 THEN
      (IF e.decckm THEN {<<27, 79, CursorFinal(e.name)>>} ELSE {<<27, 91, CursorFinal(e.name)>>})
-  ELSE IF e.name \in Keypad /\ e.mods = 0 THEN
-     (IF e.deckpam THEN {<<27, 79, KeypadFinal(e.name)>>, <<KeypadDigit(e.name)>>} ELSE {<<KeypadDigit(e.name)>>})
+  ELSE IF e.name \in Keypad \cup KeypadOps \cup {"KP_ENTER"} /\ e.mods = 0 THEN
+     (IF e.deckpam THEN {<<27, 79, KeypadFinal(e.name)>>, <<KeypadChar(e.name)>>} ELSE {<<KeypadChar(e.name)>>})
   ELSE {}
 
 KeyWhy(e) ==
-  IF ModeBytes(e) # {} /\ e.bytes \notin ModeBytes(e) THEN "mode-selected-encoding"
+  \* the legacy encoding has no report for the release of a key: bytes written for one reach the child as a key press that never happened
+  IF e.etype = "release" THEN (IF e.bytes = <<>> THEN "ok" ELSE "key-release-written")
+  ELSE IF ModeBytes(e) # {} /\ e.bytes = <<>> THEN "nothing-written"
+  ELSE IF ModeBytes(e) # {} /\ e.bytes \notin ModeBytes(e) THEN "mode-selected-encoding"
+  ELSE IF e.name \in KeypadNav THEN                \* arrives as the cursor / editing key of the same name (either form of it)
+       (IF e.bytes = <<>> THEN "nothing-written"
+        ELSE IF e.n # 1 THEN "not-one-key-event"
+        ELSE IF e.gotname = Twin(e.name) /\ e.gotmods = e.mods THEN "ok"
+        ELSE "keypad-key-not-decoded-as-its-main-key")
+  ELSE IF TextKey(e) THEN                           \* the text arrives: the decoded events are keys and their texts, joined, are the text
+       (IF e.bytes = <<>> THEN "nothing-written"
+        ELSE IF e.n < 1 \/ ~e.allkeys THEN "not-key-events"
+        ELSE IF e.gottext # e.text THEN "text-of-key-not-forwarded"
+        ELSE "ok")
   ELSE IF SharedCtrl(e) THEN
        (IF e.bytes = <<>> THEN "nothing-written"
         ELSE IF e.n # 1 THEN "not-one-key-event"
@@ -70,6 +110,10 @@ KeyWhy(e) ==
         ELSE "decoded-key-not-in-shared-control-class")
   ELSE IF ~Expressible(e) THEN "ok"
   ELSE IF e.bytes = <<>> THEN "nothing-written"
+  \* ESC + 2/0-2/15 and ESC + a character beyond ASCII are the right legacy encodings of Alt + that key; Vaxis's decoder
+  \* (the VT500 state machine, made for output) collects the former as an escape intermediate and drops the latter: no event
+  ELSE IF e.n = 0 /\ e.mods = Alt /\ e.code \in 32..47 /\ e.bytes = <<27, e.code>> THEN "alt-lost-decoding-esc-intermediate"
+  ELSE IF e.n = 0 /\ e.code > 127 /\ e.bytes = <<27>> \o Utf8(IF e.mods = Alt THEN e.code ELSE e.shifted) THEN "alt-lost-decoding-esc-nonascii"
   ELSE IF e.n # 1 THEN "not-one-key-event"
   \* ESC + C0 is the right legacy encoding of Alt + that control; Vaxis's decoder drops the Alt (C09's known finding)
   ELSE IF ~e.rt /\ e.rtnoalt /\ Len(e.bytes) = 2 /\ e.bytes[1] = 27 /\ e.bytes[2] < 32 THEN "alt-lost-decoding-esc-c0"
@@ -90,14 +134,18 @@ MouseEnabled(e) ==
 (* Alternate scroll (xterm mode 1007): on the alternate screen, while no tracking mode reports the   *)
 (* mouse, a wheel step is sent as one or more cursor-up / cursor-down keys (CSI or SS3 form); every *)
 (* other mouse event writes nothing, and so does the wheel when 1007 is reset or the normal screen  *)
-(* is active.                                                                                       *)
+(* is active.  They are cursor keys: the child's cursor-key mode selects their form like that of   *)
+(* the keys themselves (SS3 under DECCKM, CSI otherwise).                                          *)
 RECURSIVE Repeats(_, _)
 Repeats(b, unit) == IF b = <<>> THEN TRUE
                     ELSE Len(b) >= 3 /\ SubSeq(b, 1, 3) = unit /\ Repeats(SubSeq(b, 4, Len(b)), unit)
 ArrowKeys(b, final) == b # <<>> /\ (Repeats(b, <<27, 79, final>>) \/ Repeats(b, <<27, 91, final>>))
 AltScrollWhy(e) ==
   IF e.alt /\ e.m1007 /\ e.type = "press" /\ e.button \in {64, 65} THEN
-       (IF ArrowKeys(e.bytes, IF e.button = 64 THEN 65 ELSE 66) THEN "ok" ELSE "alternate-scroll-wheel-not-sent-as-cursor-keys")
+       (LET final == IF e.button = 64 THEN 65 ELSE 66 IN
+        IF ~ArrowKeys(e.bytes, final) THEN "alternate-scroll-wheel-not-sent-as-cursor-keys"
+        ELSE IF ~Repeats(e.bytes, <<27, IF e.decckm THEN 79 ELSE 91, final>>) THEN "alternate-scroll-cursor-key-mode"
+        ELSE "ok")
   ELSE IF e.bytes = <<>> THEN "ok" ELSE "mouse-not-enabled-but-written"
 
 MouseWhy(e) ==
